@@ -16,6 +16,12 @@ func init() {
 		ID: "C01",
 		Runs: []hrun{
 			{Pkg: wtxmgrPkg, Fn: "ZzC01U1L3", Tiers: "qt", Reach: []string{"c01-end", "reorg", "repeat"}, Bound: "universe U1 (chain A->B->C, 5 outputs, 4 credits), every chain-consistent history of 3 events; amounts, minConf, syncHeight, maturity symbolic"},
+			{Pkg: wtxmgrPkg, Fn: "ZzC12MinedL2", Tiers: "qt", Reach: []string{"c12-end", "leased"}, Bound: "the lease clause of the balance: C12's lease harness (2 events, symbolic clock, minConf and syncHeight) - label c12-balance is C01's balance equation with leases"},
+			{Pkg: wtxmgrPkg, Fn: "ZzC01U7L3", Tiers: "qt", Reach: []string{"c01-end", "reorg"}, Bound: "U7 (coinbase with a foreign output 0 and a credit at index 1, a known spender of each), 3 events"},
+			{Pkg: wtxmgrPkg, Fn: "ZzC01U8L3", Tiers: "t", Reach: []string{"c01-end"}, Bound: "U8 (P pays wallet and stranger, R spends the stranger's output back to the wallet, P' conflicts with P), 3 events"},
+			{Pkg: wtxmgrPkg, Fn: "ZzC01U3L3", Tiers: "t", Reach: []string{"c01-end", "reorg"}, Bound: "U3 (conflicting spenders), 3 events"},
+			{Pkg: wtxmgrPkg, Fn: "ZzC01U4L3", Tiers: "t", Reach: []string{"c01-end", "reorg"}, Bound: "U4 (coinbase and its descendants), 3 events"},
+			{Pkg: wtxmgrPkg, Fn: "ZzC01U1L4", Tiers: "t", Reach: []string{"c01-end", "reorg"}, Bound: "U1, 4 events"},
 		},
 		Assume:  []string{"memdb models bbolt through walletdb (contract in memdb.go)", "tokenised SHA-256 (collision-free) for transaction hashes over symbolic amounts"},
 		Outside: "histories longer than the bound, universes other than the listed ones, syncHeight > 2^30, sums of amounts beyond int64",
@@ -26,6 +32,9 @@ func init() {
 		Runs: []hrun{
 			{Pkg: wtxmgrPkg, Fn: "ZzC02U3L3", Tiers: "qt", Reach: []string{"c02-end", "reorg"}, Bound: "U3 (A; conflicting B, B' spend A:0; D spends B:0), histories of 3 events; ledger compared after every event, direct reconstruction at the end"},
 			{Pkg: wtxmgrPkg, Fn: "ZzC02U4L3", Tiers: "qt", Reach: []string{"c02-end", "reorg"}, Bound: "U4 (coinbase CB, S spends CB:0, S2 spends S:0), histories of 3 events"},
+			{Pkg: wtxmgrPkg, Fn: "ZzC02U7L3", Tiers: "qt", Reach: []string{"c02-end", "reorg"}, Bound: "U7 (coinbase: foreign output 0, credit at index 1, spenders of both), 3 events"},
+			{Pkg: wtxmgrPkg, Fn: "ZzC02U8L3", Tiers: "qt", Reach: []string{"c02-end", "reorg"}, Bound: "U8 (descendant through a non-credit output; conflicting P'), 3 events"},
+			{Pkg: wtxmgrPkg, Fn: "ZzC02U1zL3", Tiers: "t", Reach: []string{"c02-end"}, Bound: "U1 with amounts of the first transaction allowed to be zero, 3 events"},
 			{Pkg: wtxmgrPkg, Fn: "ZzC02U1L3", Tiers: "t", Reach: []string{"c02-end"}, Bound: "U1 chain, 3 events"},
 			{Pkg: wtxmgrPkg, Fn: "ZzC02U3L4", Tiers: "t", Reach: []string{"c02-end"}, Bound: "U3, 4 events"},
 			{Pkg: wtxmgrPkg, Fn: "ZzC02U4L4", Tiers: "t", Reach: []string{"c02-end"}, Bound: "U4, 4 events"},
@@ -39,6 +48,9 @@ func init() {
 		Runs: []hrun{
 			{Pkg: wtxmgrPkg, Fn: "ZzC13U1L3", Tiers: "qt", Reach: []string{"c13-end", "range-backwards", "range-unmined-first", "reorg"}, Bound: "U1 chain, 3 events; TxDetails/UniqueTxDetails for every tx and candidate block, RangeTransactions over symbolic begin/end in [-1,105]"},
 			{Pkg: wtxmgrPkg, Fn: "ZzC13U6L3", Tiers: "qt", Reach: []string{"c13-end", "range-backwards"}, Bound: "U6 (credits with a non-credit output between, debit-only spender), 3 events"},
+			{Pkg: wtxmgrPkg, Fn: "ZzC13U8L3", Tiers: "qt", Reach: []string{"c13-end"}, Bound: "U8 (descendant through a non-credit output; conflicting P'), 3 events"},
+			{Pkg: wtxmgrPkg, Fn: "ZzC13U1zL3", Tiers: "qt", Reach: []string{"c13-end", "reorg"}, Bound: "U1 with zero-value credits allowed (amounts of the first transaction in [0, max]), 3 events"},
+			{Pkg: wtxmgrPkg, Fn: "ZzC13U7L3", Tiers: "t", Reach: []string{"c13-end"}, Bound: "U7 coinbase with foreign output, 3 events"},
 			{Pkg: wtxmgrPkg, Fn: "ZzC13U3L3", Tiers: "t", Reach: []string{"c13-end"}, Bound: "U3 conflicts, 3 events"},
 			{Pkg: wtxmgrPkg, Fn: "ZzC13U4L3", Tiers: "t", Reach: []string{"c13-end"}, Bound: "U4 coinbase, 3 events"},
 			{Pkg: wtxmgrPkg, Fn: "ZzC13U1L4", Tiers: "t", Reach: []string{"c13-end"}, Bound: "U1, 4 events"},
@@ -50,6 +62,7 @@ func init() {
 		ID: "C12",
 		Runs: []hrun{
 			{Pkg: wtxmgrPkg, Fn: "ZzC12MinedL2", Tiers: "qt", Reach: []string{"c12-end", "leased", "lock-conflict", "lock-extended", "unlock-conflict", "unlocked", "swept", "confirmed-spend", "lock-unknown"}, Bound: "A confirmed with two credits, B spends A:0; 2 events from {see/mine/rollback/abandon, lock(op,id,duration in {0,1ns,1s,10min}), unlock(op,id), clock advance, sweep, restart}; clock seconds and nanoseconds symbolic"},
+			{Pkg: wtxmgrPkg, Fn: "ZzC12Tick", Tiers: "qt", Reach: []string{"c12-end"}, Bound: "one leased confirmed output (lease of 1 s or 10 min); Balance computed while the clock moves from t1 to t2 >= t1 (both symbolic, possibly across the expiry) after 0..3 clock readings; the answer must be the answer for t1 or for t2"},
 			{Pkg: wtxmgrPkg, Fn: "ZzC12UnminedL3", Tiers: "t", Reach: []string{"c12-end", "leased"}, Bound: "A unconfirmed, 3 events"},
 			{Pkg: wtxmgrPkg, Fn: "ZzC12MinedL3", Tiers: "t", Reach: []string{"c12-end", "leased"}, Bound: "A confirmed, 3 events"},
 		},
